@@ -225,9 +225,9 @@ def run_driver(lines, timeout=3600):
     return res
 
 
-def run_driver_sharded(lines, shards=8, timeout=3600):
+def run_driver_sharded(lines, shards=8, timeout=3600, min_lines=4000):
     """stateless lines only"""
-    if len(lines) < 4000 or shards <= 1:
+    if len(lines) < min_lines or shards <= 1:
         return run_driver(lines, timeout)
     import concurrent.futures as cf
     n = (len(lines) + shards - 1) // shards
@@ -396,7 +396,8 @@ def run_check(chk, tier, seed):
             # the driver is only usable when the model library builds
             ok_drv, drv_log = (True, '') if ok_build else lake_build(['OmbottModel.Drv.All'])
             if ok_drv:
-                outs = run_driver(lines) if chk.corr_stateful() else run_driver_sharded(lines)
+                outs = run_driver(lines) if chk.corr_stateful() else run_driver_sharded(
+                    lines, min_lines=getattr(chk, 'drv_shard_min', 4000))
                 for (line, impl, sample), mod in zip(corr_cases, outs):
                     if impl != mod:
                         disagreements.append(dict(line=line, impl=impl, model=mod, sample=sample))
